@@ -50,9 +50,11 @@ def r19_1(ctx: Ctx):
     sd, dual = ctx.ix.cls('SearchData'), ctx.ix.cls('SearchDataDualQueue')
     leftF, rightF = K.link_fields(ctx)
     listF = K.trials_list_field(ctx, sd)
-    base = K.check_insert(ctx, rid, sd.methods['InsertDataItem'], leftF, rightF, listF)
-    if 'InsertDataItem' in dual.methods:
-        ov = K.check_insert(ctx, rid, dual.methods['InsertDataItem'], leftF, rightF, listF)
+    base = K.check_insert(ctx, rid, sd.methods['InsertDataItem'], leftF, rightF, listF, cls=sd)
+    dual_ins = dual.lookup('InsertDataItem')
+    if dual_ins is not None:
+        # the dual-queue container either overrides the insertion or inherits it with overridden hooks
+        ov = K.check_insert(ctx, rid, dual_ins, leftF, rightF, listF, cls=dual)
         gq, lq = queue_fields(ctx)
         for hinted in (True, False):
             b = [s for s in base['paths'] if s['hinted'] == hinted]
@@ -61,13 +63,13 @@ def r19_1(ctx: Ctx):
                 continue
             bq = sorted(x for x in b[0]['queue'] if x[0] == gq)
             oq = sorted(x for x in o[0]['queue'] if x[0] == gq)
-            ctx.check(bq == oq, rid, 'SearchDataDualQueue.InsertDataItem', dual.methods['InsertDataItem'].loc(),
+            ctx.check(bq == oq, rid, 'SearchDataDualQueue.InsertDataItem', dual_ins.loc(),
                       f'override queues the same global entries as the base ({"hint" if hinted else "lookup"} path)',
                       f'the dual-queue override queues {oq} into the global queue where the base queues {bq}',
                       key=f'{rid}::sibling::global::{hinted}')
             ol = sorted((x[1].replace('localR', 'globalR'), x[2]) for x in o[0]['queue'] if x[0] == lq)
             ctx.check(ol == sorted((x[1], x[2]) for x in bq), rid, 'SearchDataDualQueue.InsertDataItem',
-                      dual.methods['InsertDataItem'].loc(),
+                      dual_ins.loc(),
                       'override queues the same items into the local queue, keyed by localR',
                       f'the local queue receives {[x for x in o[0]["queue"] if x[0] == lq]}; expected the same items '
                       f'as the global queue keyed by localR', key=f'{rid}::sibling::local::{hinted}')
@@ -86,10 +88,29 @@ def r19_2(ctx: Ctx):
     leftF, rightF = K.link_fields(ctx)
     x = var(f.param_names[1])
     X = lambda it: C.getter_value(ex, gx, it)
+    selfk = key_of(var(f.param_names[0]))
+    first_field = _first_field(ctx)
+    first_atom = ('attr', selfk, first_field)
     n = 0
-    for p in C.normal_paths(ex.explore(f)):
+    # the operation the property speaks of is lookup(x): optional extra parameters keep their defaults
+    dflt = {}
+    for pn, d in f.defaults().items():
+        if pn in f.param_names[2:] and isinstance(d, ast.Constant):
+            dflt[pn] = ex.const(d.value)
+    for p in C.normal_paths(ex.explore(f, args=dflt or None)):
         n += 1
         guards = C.lits_mod_ver(p.guards)
+
+        def chain() -> list:
+            """Items visited by an explicit walk first, first.right, ... (each known to be not None)."""
+            out, cur = [], first_atom
+            for _ in range(6):
+                if C.has_lit(guards, Lit('isnone', key=cur, pol=False)):
+                    out.append(C.rf_from_key(cur))
+                    cur = ('attr', cur, rightF)
+                else:
+                    break
+            return out
 
         def accepted(it) -> bool:
             return C.has_lit(guards, C.lits_mod_ver([Lit.cmp('>', X(it), x)])[0])
@@ -99,7 +120,7 @@ def r19_2(ctx: Ctx):
         iters = [e for e in p.events if e.kind == 'iter' and e.depth == 0 and e.d.get('var') is not None]
         v = p.value
         if key_of(v) == NONE:
-            visited = [it.d['var'] for it in iters]
+            visited = [it.d['var'] for it in iters] or chain()
             ok = all(rejected(it) for it in visited)
             # any item accepted on the path contradicts returning None
             acc = [l for l in guards if l.kind == 'cmp' and l.op == '<' and any(
@@ -123,6 +144,13 @@ def r19_2(ctx: Ctx):
             if i == 0 and not _starts_at_first(f):
                 pred_ok = False
         if not pred_ok and isinstance(v, RF):
+            # structural scan predecessor: the first item has none; X.right was reached from X
+            va = C.strip_versions(v.single_atom()) if v.single_atom() is not None else None
+            if va == first_atom:
+                pred_ok = True
+            elif isinstance(va, tuple) and len(va) == 3 and va[0] == 'attr' and va[2] == rightF:
+                pred_ok = rejected(C.rf_from_key(va[1]))
+        if not pred_ok and isinstance(v, RF):
             left = atomv(('attr', vk, leftF, 0))
             none_left = C.has_lit(guards, C.lits_mod_ver([Lit('isnone', key=key_of(left), pol=True)])[0])
             pred_ok = none_left or rejected(left)
@@ -131,6 +159,19 @@ def r19_2(ctx: Ctx):
                   f'not the first item to the right of the query', key=f'{rid}::{f.short}::first-match',
                   detail={'guards': [repr(l) for l in p.guards]})
     ctx.floor(rid, 'paths of the covering lookup', n, 3)
+
+
+def _first_field(ctx: Ctx) -> str:
+    """Attribute of the container that InsertFirstDataItem binds to the left end."""
+    sd = ctx.ix.cls('SearchData')
+    insf = sd.methods['InsertFirstDataItem']
+    for p in C.normal_paths(ctx.explorer().explore(insf)):
+        selfk = key_of(var(insf.param_names[0]))
+        lk = key_of(var(insf.param_names[1]))
+        for (bk, fld), v in p.state.heap.items():
+            if bk == selfk and key_of(v) == lk:
+                return fld
+    raise AnalysisError('first-item field not identified')
 
 
 def _starts_at_first(f: FuncInfo) -> bool:
